@@ -14,7 +14,7 @@ TYPEs == <<84, 89, 80, 69>>
 NAMEs == <<78, 65, 77, 69>>
 NoBind == [kind |-> "none", blocks |-> <<>>]
 InitVM(prog) == [prog |-> prog, pc |-> 0, stack |-> <<>>, blocks |-> <<>>, result |-> <<>>, binding |-> NoBind, out |-> <<>>, warn |-> 0,
-                 err |-> [kind |-> "", a |-> <<>>, n |-> 0, txt |-> ""], ood |-> FALSE, done |-> FALSE, ops |-> 0, tosMax |-> 0]
+                 err |-> [kind |-> "", a |-> <<>>, n |-> 0, txt |-> ""], ood |-> FALSE, done |-> FALSE, ops |-> 0, tosMax |-> 0, blockTosMax |-> 0]
 E(kind, a, n, txt) == [kind |-> kind, a |-> a, n |-> n, txt |-> txt]
 Top(s) == s.stack[Len(s.stack)]
 Pop(s, n) == SubSeq(s.stack, 1, Len(s.stack) - n)
@@ -47,7 +47,8 @@ StepVM(s0) ==
     [] op = "GETLOCAL" -> PushV(n, s, s.stack[ins.a + 1])
     [] op = "SETLOCAL" -> [n EXCEPT !.stack[ins.a + 1] = Top(s)]
     [] op = "DEFBLOCK" -> IF Len(s.blocks) >= BlockStackSize THEN Halt(s, E("block-overflow", <<>>, 0, ""))
-                          ELSE [n EXCEPT !.blocks = Append(@, [type |-> C(ins.a).s, name |-> C(ins.b).s, ents |-> <<>>])]
+                          ELSE [n EXCEPT !.blocks = Append(@, [type |-> C(ins.a).s, name |-> C(ins.b).s, ents |-> <<>>]),
+                                         !.blockTosMax = IF Len(s.blocks) + 1 > @ THEN Len(s.blocks) + 1 ELSE @]
     [] op = "ENDBLOCK" ->
          (LET d == Len(s.blocks) b == s.blocks[d]
               key == IF b.name = <<>> THEN b.type ELSE b.type \o <<46>> \o b.name IN
